@@ -537,3 +537,188 @@ class _SmtNative:
             raise RuntimeError("native build failed:\n%s" % se[-3000:])
         self.native = exe
         return exe
+
+
+# ---------------------------------------------------------------------------- path units (llpath)
+class PathEntry:
+    def __init__(self, name, desc="", wall=600, max_steps=3000000, max_paths=20000, witness=True, bounds=""):
+        self.name, self.desc, self.wall, self.max_steps, self.max_paths, self.witness, self.bounds = name, desc, wall, max_steps, max_paths, witness, bounds
+
+
+class PathUnit:
+    """harness TU -> clang IR (libstdc++ templates instantiated in the TU: -D_GLIBCXX_ASSERTIONS) -> vp/llpath.py:
+    every feasible path through the real code is executed symbolically; z3 decides branch feasibility and obligations"""
+    kind = "path"
+
+    def __init__(self, name, src, entries, defines=(), assumptions=(), stubs=(), native_defines=(), clang_flags=(), opaque=(), validate=True, glibcxx_assertions=True):
+        self.name, self.src, self.entries = name, src, entries
+        self.defines = list(defines) + (["_GLIBCXX_ASSERTIONS"] if glibcxx_assertions else [])
+        self.assumptions = list(assumptions)
+        self.stubs = list(stubs)
+        self.native_defines = list(native_defines)
+        self.clang_flags = list(clang_flags)
+        self.opaque = list(opaque)
+        self.validate = validate
+        self.unit = self
+
+    def validate_entry(self, exe, work, ll, opq, seed, e, nruns=8):
+        """concrete differential execution: llpath in replay mode vs the native C++ harness on seeded inputs"""
+        rnd = random.Random("%s/%s" % (seed, e.name))
+        checked, dis = 0, []
+        files, native = [], {}
+
+        def norm(s):
+            return [re.sub(r"[^A-Za-z0-9 _.,:;<>=+*/()\[\]!?&|#@%-]", "_", l) for l in s.splitlines()
+                    if l.startswith(("A ", "R ", "VP_ASSERT_FAIL", "VP_ASSUME_FAIL", "VP_DONE"))]
+        for k in range(nruns):
+            vals = [rnd.randrange(0, 3) if k % 2 == 0 else rnd.choice([0, 1, 2, 3, 5, 47, 46, 58, 44, 97, 255, rnd.getrandbits(8), rnd.getrandbits(32)]) for _ in range(64)]
+            rf = work.path("pv_%s_%d.txt" % (e.name, k))
+            open(rf, "w").write(" ".join(map(str, vals)))
+            env = dict(os.environ, VP_REPLAY=rf, VP_TRACE="1", ASAN_OPTIONS="detect_leaks=0", UBSAN_OPTIONS="halt_on_error=0")
+            r1 = run([exe, e.name], timeout=60, env=env)
+            if "runtime error" in r1[2] or "AddressSanitizer" in r1[2] or r1[0] == -9:
+                continue
+            files.append(rf)
+            native[rf] = (norm(r1[1]), vals)
+        if not files:
+            return 0, []
+        r2 = run([sys.executable, os.path.join(HERE, "llpath.py"), ll, e.name, "--replay", ",".join(files), "--wall", "60"] + (["--opaque", opq] if opq else []), timeout=300)
+        cur = None
+        got = {}
+        for l in r2[1].splitlines():
+            if l.startswith("== "):
+                cur = l[3:]
+                got[cur] = []
+            elif cur is not None:
+                got[cur].append(l)
+        for rf in files:
+            lines = got.get(rf)
+            if lines is None:
+                dis.append(dict(entry=e.name, err="engine produced no trace: " + r2[2][-300:]))
+                continue
+            if any(l.startswith("INCONCLUSIVE") for l in lines):
+                continue
+            checked += 1
+            t2 = norm("\n".join(lines))
+            t1, vals = native[rf]
+            if t1 != t2:
+                dis.append(dict(entry=e.name, inputs=vals[:12], cpp=t1[-3:], engine=t2[-3:]))
+        return checked, dis
+
+    def run(self, work, rep, known, pool, seed):
+        from check import keep_replay, kf_match
+        tag = hashlib.sha1((" ".join(self.defines) + self.name).encode()).hexdigest()[:8]
+        base = work.path("%s_%s" % (self.name, tag))
+        ll = base + ".ll"
+        src = os.path.join(ROOT, self.src)
+        cmd = [CLANG] + CLANG_FLAGS + self.clang_flags + ["-I" + REPO, "-I" + work.inc, "-I" + os.path.join(ROOT, "harness")] + \
+              ["-D" + d for d in self.defines] + ["-S", "-emit-llvm", src, "-o", ll]
+        rc, so, se, dt = run(cmd, timeout=300)
+        if rc != 0:
+            raise RuntimeError("clang failed for %s:\n%s" % (src, se[-3000:]))
+        mod = llir.parse_file(ll)
+        present = set(n for n, f in mod.funcs.items() if not f.is_decl)
+        opq = None
+        if self.opaque:
+            opq = base + ".opaque"
+            open(opq, "w").write("\n".join(self.opaque) + "\n")
+        var = _SmtNative(work, self, base)
+        futs = []
+        for e in self.entries:
+            if e.name not in present:
+                rep.errors.append("unit %s: entry %s not found" % (self.name, e.name))
+                continue
+            out = base + "_" + e.name + ".json"
+            cmd = [sys.executable, os.path.join(HERE, "llpath.py"), ll, e.name, "--json", out, "--wall", str(e.wall), "--max-steps", str(e.max_steps), "--max-paths", str(e.max_paths)]
+            if opq:
+                cmd += ["--opaque", opq]
+            futs.append((e, out, pool.submit(run, cmd, e.wall + 120)))
+        vfs = []
+        if self.validate:
+            exe = var.build_native()
+            vfs = [pool.submit(self.validate_entry, exe, work, ll, opq, seed, e) for e in self.entries if e.name in present]
+        rep.stubs.extend(self.stubs)
+        rep.stubs.extend("opaque(havoc): functions matching " + o for o in self.opaque)
+        rep.assumptions.extend(self.assumptions)
+        uinfo = {"unit": self.name, "src": self.src, "defines": self.defines, "engine": "llpath", "entries": []}
+        kfs = [k for k in known if k.get("status") == "open" and k.get("unit") in (self.name, None)]
+        for e, out, fu in futs:
+            rc, so, se, dt = fu.result()
+            try:
+                r = json.load(open(out))
+            except Exception:
+                rep.obligations += 1
+                rep.inconclusive.append("%s/%s: %s" % (self.name, e.name, "wall timeout" if rc == -9 else "engine error: " + se[-400:]))
+                print("INCONCLUSIVE %s/%s (%s)" % (self.name, e.name, "timeout" if rc == -9 else "engine error"))
+                if rc != -9:
+                    rep.errors.append("%s/%s llpath crashed: %s" % (self.name, e.name, se[-600:]))
+                continue
+            rep.queries += r["queries"]
+            rep.solver_s += r["solver_time"]
+            for fn, h in fn_hashes(mod, r["functions"]).items():
+                rep.encoded[fn] = h
+            for a in r["assumptions"]:
+                if a not in rep.assumptions:
+                    rep.assumptions.append(a)
+            nob = r["obligations"] + r["queries"]
+            nviol = len(r["violations"])
+            rep.obligations += r["obligations"]
+            rep.discharged += max(r["obligations"] - nviol, 0)
+            rep.vccs += nob
+            rep.vccs_nontrivial += r["queries"]
+            rep.bounds.append("%s/%s: %s; every feasible path executed to its end (%d paths, %d instructions; limits: %d s, %d steps, %d paths - exceeding one is reported as inconclusive, never as success)"
+                              % (self.name, e.name, e.bounds or "input sizes fixed by the harness", r["paths"], r["steps"], e.wall, e.max_steps, e.max_paths))
+            einfo = {"entry": e.name, "desc": e.desc, "paths": r["paths"], "path_ends": r["path_ends"], "instructions": r["steps"], "queries": r["queries"],
+                     "obligations": r["obligations"], "wall_s": r["wall"], "solver_s": r["solver_time"]}
+            if r["status"] == "inconclusive" or (r["status"] == "violated" and r["note"]):
+                rep.obligations += 1
+                rep.inconclusive.append("%s/%s: %s" % (self.name, e.name, r["note"]))
+                print("INCONCLUSIVE %s/%s (%s)" % (self.name, e.name, r["note"][:200]))
+            if e.witness and r["status"] == "held" and "end" not in r["reach"]:
+                rep.errors.append("%s/%s VACUOUS: no path reaches the end of the harness (reach=%s, ends=%s)" % (self.name, e.name, r["reach"], r["path_ends"]))
+            viol = r["violations"]
+            einfo["status"] = "fails" if viol else ("holds" if r["status"] == "held" else "inconclusive")
+            uinfo["entries"].append(einfo)
+            rep.samples.append({"unit": self.name, "entry": e.name, "what": e.desc, "paths": r["paths"], "obligations": r["obligations"], "solver_queries": r["queries"], "status": einfo["status"]})
+            if not viol:
+                continue
+            groups = {}
+            for o in viol:
+                hit = None
+                for k in kfs:
+                    if k.get("entry") in (e.name, None, "*") and kf_match(k, o["label"], o["label"].split(":", 1)[-1]):
+                        hit = k
+                        break
+                groups.setdefault(hit["id"] if hit else None, (hit, []))[1].append(o)
+            for kid, (k, items) in groups.items():
+                rep_ok = None
+                last = None
+                for o in items[:4]:
+                    verdict, what, rf = replay_native(var, e, o.get("inputs", []), work, "%d" % (hash(o["label"]) & 0xffffff))
+                    rep.replayed += 1
+                    last = (verdict, what)
+                    if verdict == "reproduced":
+                        rep_ok = (o, what, rf)
+                        break
+                labels = sorted(set(o["label"] for o in items))
+                if rep_ok is None:
+                    rep.errors.append("%s/%s: counterexample for %s did not reproduce natively (%s) - engine, model or harness is wrong (inputs %s)"
+                                      % (self.name, e.name, labels[:4], last, items[0].get("inputs")))
+                    continue
+                o, what, rf = rep_ok
+                if k is not None:
+                    print("KNOWN-FINDING: property=%s %s [%s/%s: %s]" % (rep.pid, k.get("what", kid), self.name, e.name, o["label"]))
+                    rep.known_hit.append(kid)
+                else:
+                    dst = keep_replay(rep.pid, rf, o["label"])
+                    open(dst, "a").write("# unit=%s entry=%s failing=%s native=%s\n" % (self.name, e.name, o["label"], what))
+                    print("VIOLATION property=%s replay=%s" % (rep.pid, dst))
+                    print("  obligation: %s/%s [%s] (+%d related) -> %s ; inputs %s ; in %s" % (self.name, e.name, o["label"], len(labels) - 1, what, o.get("inputs"), o.get("where")))
+                    rep.violations.append((o["label"], dst))
+        for vf in vfs:
+            checked, dis = vf.result()
+            rep.tv_checked += checked
+            rep.tv_disagree += len(dis)
+            if dis:
+                rep.errors.append("engine validation disagreement in %s: %s" % (self.name, dis[:2]))
+        rep.units.append(uinfo)
